@@ -444,7 +444,8 @@ impl Cfg {
                 || b.nmin.unwrap_or(0) > b.nmax.unwrap_or(MAX_TTL as u128 * NS_PER_S)
         })
     }
-    /// class `C15.bounds-over-u32`: some configured bound is ≥ 2^32 s
+    /// some configured bound is ≥ 2^32 s (statistics only: since hickory-dns 617ee15 such
+    /// configurations are judged like any other)
     fn over_u32(&self) -> bool {
         let lim = (1u128 << 32) * NS_PER_S;
         self.all_bounds().any(|b| [b.pmin, b.pmax, b.nmin, b.nmax].iter().any(|x| x.is_some_and(|v| v >= lim)))
@@ -452,8 +453,6 @@ impl Cfg {
     fn class(&self) -> &'static str {
         if self.min_gt_max() {
             "C15.bounds-min-gt-max"
-        } else if self.over_u32() {
-            "C15.bounds-over-u32"
         } else {
             ""
         }
